@@ -389,6 +389,27 @@ def main(rec):
                          namespace=r.choice([None, "outer"]))
         ops, meta = build_plan(lib, r, thorough)
         cases.append({"lib": lib, "ops": ops, "meta": meta})
+    # Lua switched off for the library and on for each function individually (also inside namespace blocks)
+    import copy as _copy
+    inst_all = libs.instances("c++", ("lua",))
+    pick = [x for x in inst_all if x[0]["id"] in ("ns_scalar", "default3")] + [x for x in inst_all if x[0]["id"] == "scalar2"][:1]
+    sel_libs = [c["lib"] for c in cases if c["lib"]["language"] == "c++"][:2]
+    if pick:
+        sel_libs.append(libs.build("lns", "c++", pick, ("lua",)))
+        sel_libs.append(libs.build("lnso", "c++", pick, ("c", "fortran", "lua"), namespace="outer"))
+    for base_lib in sel_libs:
+        lib2 = _copy.deepcopy(base_lib)
+        lib2["name"] = lib2["name"] + "sel"
+        lib2["options"]["wrap_lua"] = False
+        for f in lib2["functions"]:
+            if not f.get("cls"):
+                f.setdefault("yaml", {})
+                f["yaml"]["options"] = dict(f["yaml"].get("options") or {}, wrap_lua=True)
+        lib2["functions"] = [f for f in lib2["functions"] if not f.get("cls")]
+        if lib2["functions"]:
+            libs.assign_names(lib2)
+            ops2, meta2 = build_plan(lib2, common.rng("c18sel", lib2["name"]), thorough)
+            cases.append({"lib": lib2, "ops": ops2, "meta": meta2})
     res = pool.run_cases("vf.checks.c18", cases, func="run_library", timeout=1800)
     for c, rr in zip(cases, res):
         if "stats" not in rr:
